@@ -57,6 +57,7 @@ _dkind_nofactory = st.sampled_from([None, "v"])
 _sigs = st.integers(0, len(INIT_SIGS) - 1)
 _deco_init = st.sampled_from([None, None, None, 1, 0])
 _extra = st.sampled_from(EXTRA_FLAGS)
+_kw_names = st.sampled_from(["_", "_", "_kw", "marker"])
 _nbases = st.sampled_from([0, 1, 1, 1, 2, 2])
 
 
@@ -93,7 +94,8 @@ def _body(draw, decorated: bool):
         else:
             items.append({"t": t, "n": n})
     if items and draw(_i03) == 0:
-        items.insert(draw(st.integers(0, len(items))), {"t": "kw"})
+        # CPython recognises the marker by its type, whatever the attribute is called
+        items.insert(draw(st.integers(0, len(items))), {"t": "kw", "n": draw(_kw_names)})
     if draw(_i09 if decorated else _i04) == 0:
         items.insert(draw(st.integers(0, len(items))), {"t": "init", "sig": draw(_sigs)})
     return items
@@ -147,7 +149,13 @@ def diamond_cases(draw, avoid_inherited_value: bool = False):
     """C0 <- C1, C0 <- C2, C3(C2, C1), all dataclasses: dataclasses merges, in reversed MRO, the *complete* field table of
     every base, so C2 re-introduces C0's definition of a field that C1 re-declared. The bodies share the small name pool."""
     classes = []
+    # C2 (first base of C3, merged last) is left undecorated one time in three: it then re-introduces C0's definitions through
+    # the `__dataclass_fields__` it inherits
+    plain_c2 = draw(st.integers(0, 2)) == 0
     for i, bases in enumerate(([], [0], [0], [2, 1])):
+        if i == 2 and plain_c2:
+            classes.append({"bases": bases, "deco": None, "body": draw(_body_plain)})
+            continue
         deco = draw(_deco_decorated)
         if i == 3 and deco["init"] == 0:
             deco = {**deco, "init": None}
@@ -315,6 +323,7 @@ def normalize(case: dict, avoid_inherited_value: bool = False) -> dict:
                 if seen_kw:
                     continue
                 seen_kw = True
+                seen_names.add(item.get("n", "_"))
             elif item["t"] == "init":
                 if seen_init:
                     continue
@@ -408,7 +417,7 @@ def render_class(case: dict, i: int) -> list[str]:
             ann = cv_name if item["bare"] else f"{cv_name}[int]"
             lines.append(f"    {item['n']}: {ann}{' = 0' if item['v'] else ''}")
         elif t == "kw":
-            lines.append(f"    _: {kw_name}")
+            lines.append(f"    {item.get('n', '_')}: {kw_name}")
         elif t == "u":
             lines.append(f"    {item['n']} = 0")
         elif t == "prop":
@@ -562,6 +571,8 @@ def stats(case: dict) -> tuple[bool, list[str]]:
             shared = [j for j in anc[0] & anc[1] if tables[j] is not None and classes[j]["deco"] is not None]
             if shared and d is not None:
                 labels.add("diamond-over-dataclass")
+                if any(classes[b]["deco"] is None for b in cls["bases"]):
+                    labels.add("diamond-with-undecorated-branch")
                 # a field of the shared ancestor re-declared in one branch only: CPython's per-base table merge decides
                 for j in shared:
                     names = {it.get("n") for it in classes[j]["body"] if it["t"] in ("f", "iv")}
@@ -589,7 +600,7 @@ def stats(case: dict) -> tuple[bool, list[str]]:
         for it in cls["body"]:
             t = it["t"]
             if t == "kw":
-                labels.add("KW_ONLY-marker")
+                labels.add("KW_ONLY-marker" + ("" if it.get("n", "_") == "_" else "-not-named-underscore"))
                 kw_interplay = True
             elif t == "cv":
                 labels.add("classvar-bare" if it["bare"] else "classvar")
